@@ -202,6 +202,7 @@ def build(run):
     run.verify('convert_date_seq', calls={'dt.date': dt_date_call})
     run.verify('_name_to_month')
     verify_numeric_round_trip(run)
+    verify_convert(run)
     run.verify('_match_pattern', calls={'pattern.search': pattern_search}, ghost={'found': None})
     # ---- lemmas: what the rules mean at the corners the statement names --------------------------------------------------------------
     lo, x, hi = z3.Real('lo'), z3.Real('x'), z3.Real('hi')
@@ -351,3 +352,19 @@ def verify_numeric_round_trip(run):
                                       Val.I(If(j == 0, t_hour(t), If(j == 1, t_min(t), If(j == 2, t_sec(t), t_us(t))))) == tup_item(k, j))),
                   Implies(tup_len(k) < 4, t_us(t) == 0), Implies(tup_len(k) < 3, t_sec(t) == 0), Implies(tup_len(k) < 2, t_min(t) == 0)))
     run.trust('datetime: the attributes of an object built by a constructor are the constructor arguments (used by the round-trip lemmas)')
+
+
+# ---- _Interval._convert / _parse_range (sequence branch): which converter sees which endpoint -------------------------------------------------
+@contract('_Interval._convert', qual=Q + '_Interval._convert', modifies=())
+def _iv_convert(c):
+    v, cs, cq = c.v('value'), c.v('convert_str'), c.v('convert_seq')
+    is_seq = Val.is_T(v)
+    c.raises('TypeError', when=And(Not(Val.is_S(v)), Not(is_seq)), label='neither_text_nor_sequence')
+    c.raises('OtherException', when=Or(Val.is_S(v), is_seq), label='the_converter_rejects_the_value')
+    c.requires('values_are_text_sequences_or_plain_objects', Or(Val.is_S(v), is_seq, Val.is_I(v), Val.is_R(v), Val.is_VNone(v), Val.is_B(v)))
+    c.ensures('text_goes_to_the_string_converter_sequences_to_the_numeric_one', c.rv == If(Val.is_S(v), app(cs, v), app(cq, v)))
+    c.ensures('only_text_and_sequences_are_accepted', Or(Val.is_S(v), is_seq))
+
+
+def verify_convert(run):
+    run.verify('_Interval._convert', calls={'*value*': user_call})
